@@ -9,3 +9,8 @@ const verifBoundIdxLookups = 3
 const verifBoundIdxFile = 112
 const verifBoundTail = 12
 const verifBoundManifestV4 = true
+const verifBoundIdxGarbage = 96
+var verifBoundFSModes = [5]bool{true, true, true, true, true}
+const verifBoundFSCorruptMetaOnly = false
+const verifBoundFSCommits = 2
+const verifBoundROTail = 10
